@@ -665,7 +665,7 @@ func (e *Env) call(x *ECall) (TV, error) {
 		if v.Typ != nil {
 			if _, ok := v.Typ.Underlying().(*types.Map); ok {
 				ml := vc.heap(e.st, mapLenName(v.Typ), arraySort(SInt, SInt))
-				return TV{sel(ml, v.T), tInt}, nil
+				return TV{ite(eq(v.T, tZero), tZero, sel(ml, v.T)), tInt}, nil
 			}
 			if a, ok := v.Typ.Underlying().(*types.Array); ok {
 				return TV{intLit(a.Len()), tInt}, nil
